@@ -20,6 +20,7 @@ import (
 	"runtime"
 	"sort"
 	"strings"
+	"sync"
 	"time"
 	"unsafe"
 
@@ -127,24 +128,166 @@ type c10Arena struct {
 	cap, len, size int
 }
 
+// The layout of the bank is discovered, not assumed: which field of ResourceBank holds the
+// per-type arrays and which the string store is decided by the fields' types, and which field
+// of an array's descriptor is the type, the memory, the capacity, the length in use and the
+// element size is decided by what they hold after two allocations of a 40-byte probe type from
+// a fresh bank.  Renaming or reordering unexported fields, or adding new ones, therefore does
+// not disturb the correspondence; the field names of the pinned tree are only the fallback.
+type c10LayoutT struct {
+	ok                             bool
+	why                            string
+	arenas, sdata                  int // field indices in ResourceBank
+	ptyp, array, capI, lenI, sizeI int // field indices in the element of the arenas slice
+	rb                             int // field index of the bank pointer in ReadBuf
+}
+
+var (
+	c10LayoutOnce sync.Once
+	c10Layout     c10LayoutT
+)
+
+type c10Probe struct{ a, b, c, d, e uint64 }
+
+func c10FieldInt(v reflect.Value) (int64, bool) {
+	switch v.Kind() {
+	case reflect.Int, reflect.Int64, reflect.Int32, reflect.Int16:
+		return v.Int(), true
+	case reflect.Uint, reflect.Uint64, reflect.Uint32, reflect.Uint16, reflect.Uintptr:
+		return int64(v.Uint()), true
+	}
+	return 0, false
+}
+
+func c10FieldPtr(v reflect.Value) (uintptr, bool) {
+	switch v.Kind() {
+	case reflect.UnsafePointer, reflect.Pointer:
+		return v.Pointer(), true
+	}
+	return 0, false
+}
+
+func c10Discover() (l c10LayoutT) {
+	defer func() {
+		if p := recover(); p != nil {
+			l.ok, l.why = false, fmt.Sprint(p)
+		}
+	}()
+	l.arenas, l.sdata, l.rb = -1, -1, -1
+	l.ptyp, l.array, l.capI, l.lenI, l.sizeI = -1, -1, -1, -1, -1
+	bt := reflect.TypeOf(avro.ResourceBank{})
+	for i := 0; i < bt.NumField(); i++ {
+		ft := bt.Field(i).Type
+		if ft.Kind() == reflect.Slice && ft.Elem().Kind() == reflect.Struct {
+			if l.arenas >= 0 && bt.Field(i).Name != "types" {
+				continue
+			}
+			l.arenas = i
+		}
+		if ft.Kind() == reflect.Slice && ft.Elem().Kind() == reflect.Uint8 {
+			if l.sdata >= 0 && bt.Field(i).Name != "sData" {
+				continue
+			}
+			l.sdata = i
+		}
+	}
+	rt := reflect.TypeOf(avro.ReadBuf{})
+	for i := 0; i < rt.NumField(); i++ {
+		if rt.Field(i).Type == reflect.TypeOf(&avro.ResourceBank{}) {
+			l.rb = i
+		}
+	}
+	switch {
+	case l.arenas < 0:
+		l.why = "ResourceBank has no field that is a slice of per-type array descriptors"
+		return
+	case l.sdata < 0:
+		l.why = "ResourceBank has no []byte field for string data"
+		return
+	case l.rb < 0:
+		l.why = "ReadBuf has no *ResourceBank field"
+		return
+	}
+	// two allocations of a 40-byte type from a fresh bank
+	bank := &avro.ResourceBank{}
+	pt := reflect.TypeOf(c10Probe{})
+	first := uintptr(bank.Alloc(pt))
+	second := uintptr(bank.Alloc(pt))
+	av := reflect.ValueOf(bank).Elem().Field(l.arenas)
+	if av.Len() != 1 || second-first != 40 {
+		l.why = fmt.Sprintf("after two allocations of one type a fresh bank describes %d arrays, the objects are %d bytes apart", av.Len(), second-first)
+		return
+	}
+	e := av.Index(0)
+	for i := 0; i < e.NumField(); i++ {
+		f := e.Field(i)
+		if pv, ok := c10FieldPtr(f); ok {
+			switch pv {
+			case rtypePtr(pt):
+				l.ptyp = i
+			case first:
+				l.array = i
+			}
+			continue
+		}
+		if iv, ok := c10FieldInt(f); ok {
+			switch {
+			case iv == 2 && l.lenI < 0:
+				l.lenI = i
+			case iv == 40 && l.sizeI < 0:
+				l.sizeI = i
+			case iv > 2 && iv != 40 && l.capI < 0:
+				l.capI = i
+			}
+		}
+	}
+	if l.ptyp < 0 || l.array < 0 || l.capI < 0 || l.lenI < 0 || l.sizeI < 0 {
+		// fall back to the names of the pinned tree
+		et := e.Type()
+		idx := func(n string) int {
+			if f, ok := et.FieldByName(n); ok {
+				return f.Index[0]
+			}
+			return -1
+		}
+		l.ptyp, l.array, l.capI, l.lenI, l.sizeI = idx("ptyp"), idx("array"), idx("cap"), idx("len"), idx("size")
+		if l.ptyp < 0 || l.array < 0 || l.capI < 0 || l.lenI < 0 || l.sizeI < 0 {
+			l.why = "the descriptor of a per-type array does not show type, memory, capacity, length in use and element size"
+			return
+		}
+	}
+	l.ok = true
+	return
+}
+
+func c10GetLayout() *c10LayoutT {
+	c10LayoutOnce.Do(func() { c10Layout = c10Discover() })
+	return &c10Layout
+}
+
 func c10Arenas(rb *avro.ResourceBank) []c10Arena {
-	v := reflect.ValueOf(rb).Elem().FieldByName("types")
+	l := c10GetLayout()
+	v := reflect.ValueOf(rb).Elem().Field(l.arenas)
 	out := make([]c10Arena, v.Len())
 	for i := range out {
 		e := v.Index(i)
-		out[i] = c10Arena{e.FieldByName("ptyp").Pointer(), e.FieldByName("array").Pointer(),
-			int(e.FieldByName("cap").Int()), int(e.FieldByName("len").Int()), int(e.FieldByName("size").Int())}
+		pt, _ := c10FieldPtr(e.Field(l.ptyp))
+		ar, _ := c10FieldPtr(e.Field(l.array))
+		cp, _ := c10FieldInt(e.Field(l.capI))
+		ln, _ := c10FieldInt(e.Field(l.lenI))
+		sz, _ := c10FieldInt(e.Field(l.sizeI))
+		out[i] = c10Arena{pt, ar, int(cp), int(ln), int(sz)}
 	}
 	return out
 }
 
 func c10SData(rb *avro.ResourceBank) (base uintptr, l, c int) {
-	v := reflect.ValueOf(rb).Elem().FieldByName("sData")
+	v := reflect.ValueOf(rb).Elem().Field(c10GetLayout().sdata)
 	return v.Pointer(), v.Len(), v.Cap()
 }
 
 func c10BankOf(b *avro.ReadBuf) *avro.ResourceBank {
-	return (*avro.ResourceBank)(reflect.ValueOf(b).Elem().FieldByName("rb").UnsafePointer())
+	return (*avro.ResourceBank)(reflect.ValueOf(b).Elem().Field(c10GetLayout().rb).UnsafePointer())
 }
 
 func rtypePtr(t reflect.Type) uintptr {
@@ -988,36 +1131,16 @@ func c10File(r *Run) {
 // and ReadBuf (read only).  When a rewrite of the library renames them the correspondence
 // can no longer observe the implementation: that is reported as such, not as a crash.
 func c10Introspect() (missing string) {
-	defer func() {
-		if p := recover(); p != nil {
-			missing = fmt.Sprint(p)
-		}
-	}()
-	bt := reflect.TypeOf(avro.ResourceBank{})
-	for _, f := range []string{"types", "sData"} {
-		if _, ok := bt.FieldByName(f); !ok {
-			return "ResourceBank." + f
-		}
-	}
-	tf, _ := bt.FieldByName("types")
-	if tf.Type.Kind() != reflect.Slice {
-		return "ResourceBank.types is not a slice"
-	}
-	for _, f := range []string{"ptyp", "array", "cap", "len", "size"} {
-		if _, ok := tf.Type.Elem().FieldByName(f); !ok {
-			return "resourceType." + f
-		}
-	}
-	if _, ok := reflect.TypeOf(avro.ReadBuf{}).FieldByName("rb"); !ok {
-		return "ReadBuf.rb"
+	if l := c10GetLayout(); !l.ok {
+		return l.why
 	}
 	return ""
 }
 
 func runC10(r *Run) {
 	if m := c10Introspect(); m != "" {
-		r.Fail(-1, "correspondence-broken", "the bank-level correspondence (Corr/Bank.v, harness/c10.go) reads the unexported field "+m+
-			", which this version of the library does not have: the model can no longer be compared with the implementation", map[string]any{"missing": m})
+		r.Fail(-1, "correspondence-broken", "the bank-level correspondence (Corr/Bank.v, harness/c10.go) looks inside ResourceBank (read only) and cannot find its way in this version of the library: "+m+
+			": the model can no longer be compared with the implementation", map[string]any{"missing": m})
 		return
 	}
 	old := runtime.GOMAXPROCS(1) // one P: every pooled bank is visible to Pool.Get
